@@ -1,5 +1,5 @@
 (* driver for suite "sharedconn" (C13)
-   case : <mode> ap<0|1> pt<seed>,<level> <op> ...     op = new | close:h | pclose:h,.. | pclosew:h,..:w,.. | write:h | rstart:h | rpoll:h | deliver
+   case : <mode> ap<0|1> pt<seed>,<level> <op> ...     op = new | close:h | pclose:h,.. | pclosew:h,..:w,.. | write:h | dl:h:d | rstart:h | rpoll:h | deliver
    obs  : one token per operation (numbers separated by commas)
    The extracted sequential model is folded over the operations; tokens are compared after the
    projection described below; the extracted monitor judges the raw observation. *)
@@ -17,6 +17,7 @@ let op_of mode t =
   | ["pclose"; hs] -> Model.OPClose (nats hs)
   | ["pclosew"; hs; ws] -> Model.OPCloseW (nats hs, if mode = "tcp" then [] else nats ws)
   | ["write"; h] -> if mode = "tcp" then Model.ORPoll big else (match nats h with x :: _ -> Model.OWrite x | [] -> Model.OWrite big)
+  | ["dl"; h; d] -> (match nats h, nats d with x :: _, y :: _ -> Model.ODeadline (x, y) | _ -> Model.ODeadline (big, big))
   | ["rstart"; h] -> (match nats h with x :: _ -> Model.ORStart x | [] -> Model.ORStart big)
   | ["rpoll"; h] -> (match nats h with x :: _ -> Model.ORPoll x | [] -> Model.ORPoll big)
   | ["deliver"] -> if mode = "wrap" then Model.ODeliver else Model.ORPoll big
@@ -46,7 +47,7 @@ let handle case obs =
     let rec cmp ops model impl obs =
       match ops, model, impl, obs with
       | o :: ops', m :: model', i :: impl', t :: obs' ->
-        (if project mode o m = project mode o i || (m = [7] && (i = [1] || i = [2] || i = [3])) then t else tok m) :: cmp ops' model' impl' obs'
+        (if project mode o m = project mode o i || (m = [7] && (match i with [1; _] | [2] | [3] -> true | _ -> false)) then t else tok m) :: cmp ops' model' impl' obs'
       | _, m :: model', _, _ -> tok m :: cmp [] model' [] []
       | _, [], _, _ -> [] in
     (cmp ops model impl obs, failed)
